@@ -32,7 +32,7 @@ PROP = 'C07'
 # =============================================================================
 # part 'air'
 # =============================================================================
-def air_conversation(mutate=None, client='ini', size=200):
+def air_conversation(mutate=None, client='ini', size=200, miu=128, did=None):
     """One whole-stack SNEP put; `mutate(sender, index, frame) -> frame|None`
     may replace a frame on the air.  Returns (sched, ctx, net, obs)."""
     import ndef
@@ -90,14 +90,18 @@ def air_conversation(mutate=None, client='ini', size=200):
             return data
         return parts[0] + b' ' + new.hex().encode()
 
-    opts = dict(ini=dict(miu=128, sec=False, lto=100),
-                tgt=dict(miu=128, sec=False, lto=100))
+    opts = dict(ini=dict(miu=miu, sec=False, lto=100),
+                tgt=dict(miu=miu, sec=False, lto=100))
     opts[srv_role]['on-startup'] = srv_startup
     apps = {srv_role: srv_app, client: cli_app}
     s, ctx, net = stack.run_pair(opts['ini'], opts['tgt'], ini_app=apps['ini'],
                                  tgt_app=apps['tgt'], horizon=60.0, fate=fate,
                                  max_steps=400000, give_up=10.0)
-    s.run()
+    stack.DID[0] = did
+    try:
+        s.run()
+    finally:
+        stack.DID[0] = None
     return s, ctx, net, obs
 
 
@@ -196,6 +200,9 @@ def air_baseline(client):
 def air_units(tier):
     units = []
     for client in ('ini', 'tgt'):
+        units.append(('air', (client, 'legal', 0, 'legal', [
+            (size, miu, did) for did in (None, 1, 14)
+            for miu in (128, 248, 2175) for size in (200, 700, 2300)])))
         frames = air_baseline(client)
         seen = {}
         for sender, k, brty, frame in frames:
@@ -215,6 +222,29 @@ def air_units(tier):
 def air_work(arg):
     client, sender, k, kind, muts = arg
     run = Run(PROP)
+    if sender == 'legal':
+        # no mutation: a legal peer with unusual parameters (initiator
+        # assigns a DID, frames filled up to the length reduction limit)
+        for (size, miu, did) in muts:
+            s, ctx, net, obs = air_conversation(None, client, size, miu, did)
+            bad = judge_stack(s, ctx, obs)
+            if not bad and (obs['client'] != ('ret', True)
+                            or obs['put'] != [1]):
+                bad = [('not-delivered', dict(client=repr(obs['client']),
+                                              put=obs['put']))]
+            key = ('air-legal', client, size, miu, did)
+            run.outcome(('air-legal', s.verdict))
+            if not bad:
+                run.ok(key)
+            for sig, detail in bad[:1]:
+                run.fail('air|legal-peer|did=%s,miu=%d|%s' % (did, miu, sig),
+                         dict(detail, part='air', client=client,
+                              sender='legal', index=0, size=size, miu=miu,
+                              did=did, frame=''), key)
+        run.count('air-legal', len(muts))
+        run.sample(dict(part='air', client=client, sender='legal',
+                        cases=[list(m) for m in muts]))
+        return run.export()
     for mkind, hexframe in muts:
         new = bytes.fromhex(hexframe)
 
